@@ -67,6 +67,113 @@ def twoSubsRun (form : AppendForm) (extra : Nat) (ctorS aS bS : List String) (ba
   let l := twoSubscribers form (ctor ++ filler) ctorS.length (specMws ctorS.length aS) (specMws 100 bS)
   "ok " ++ showRun ((newMethod (baseFn base "") l).invoke arg)
 
+/-! ### the value dimension (harness/rt/middleware_values.go) -/
+
+/-- The harness's value table: (kind, code) ↦ the Go value, as a dynamic value. -/
+def valTable (kind code : String) : Option DVal :=
+  match kind, code with
+  | "ptr", "n" => some (.val "*c16Thing" .ptr true "")
+  | "ptr", "z" => some (.val "*c16Thing" .ptr false "{0}")
+  | "ptr", "v" => some (.val "*c16Thing" .ptr false "{7}")
+  | "list", "n" => some (.val "[]string" .slice true "")
+  | "list", "e" => some (.val "[]string" .slice false "[]")
+  | "list", "v" => some (.val "[]string" .slice false "[a+b]")
+  | "map", "n" => some (.val "map[string]int32" .map true "")
+  | "map", "e" => some (.val "map[string]int32" .map false "{}")
+  | "map", "v" => some (.val "map[string]int32" .map false "{k=1}")
+  | "bin", "n" => some (.val "[]uint8" .slice true "")
+  | "bin", "e" => some (.val "[]uint8" .slice false "")
+  | "bin", "v" => some (.val "[]uint8" .slice false "00ff")
+  | "i32", "z" => some (.val "int32" .prim false "0")
+  | "i32", "v" => some (.val "int32" .prim false "42")
+  | "i64", "z" => some (.val "int64" .prim false "0")
+  | "i64", "v" => some (.val "int64" .prim false "-9")
+  | "bool", "z" => some (.val "bool" .prim false "false")
+  | "bool", "v" => some (.val "bool" .prim false "true")
+  | "dbl", "z" => some (.val "float64" .prim false "0")
+  | "dbl", "v" => some (.val "float64" .prim false "1.5")
+  | "str", "z" => some (.val "string" .prim false "")
+  | "str", "v" => some (.val "string" .prim false "s")
+  | _, _ => none
+
+def errTable (code : String) : Option DVal :=
+  match code with
+  | "-" => some .untyped
+  | "p" => some (.val "*errors.errorString" .ptr false "P")
+  | "x" => some (.val "*c16Exc" .ptr false "{boom}")
+  | "t" => some (.val "*c16Exc" .ptr true "")
+  | _ => none
+
+def isErrTy (t : String) : Bool := t == "*errors.errorString" || t == "*c16Exc"
+
+def showDVal : DVal → String
+  | .untyped => "nil"
+  | .val ty _ true _ => ty ++ "#nil"
+  | .val ty _ false p => ty ++ "#" ++ p
+
+def showDVals (l : List DVal) : String := "/".intercalate (l.map showDVal)
+
+/-- A declared-type return value for a dynamic one from the tables. -/
+def asDeclared : DVal → SVal
+  | .val ty k n p => .concrete ty k n p
+  | .untyped => .iface .untyped
+
+def setLast (l : List DVal) (v : DVal) : List DVal :=
+  match l.reverse with
+  | [] => []
+  | _ :: t => (v :: t).reverse
+
+def vSpecW (aKind rKind spec : String) : Option (W (List DVal) (List DVal)) :=
+  if spec == "o" then some ⟨id, id⟩
+  else if spec == "U" then
+    if rKind == "void" then none else some ⟨id, fun r => .untyped :: r.drop 1⟩
+  else match spec.toList with
+    | ['R', c] => if rKind == "void" then none else
+        (valTable rKind (String.singleton c)).map fun v => ⟨id, fun r => v :: r.drop 1⟩
+    | ['A', c] => (valTable aKind (String.singleton c)).map fun v => ⟨fun _ => [v], id⟩
+    | ['E', c] => (errTable (String.singleton c)).map fun v => ⟨id, fun r => setLast r v⟩
+    | _ => none
+
+def showVEv : Ev (List DVal) (List DVal) → String
+  | .enter i a => s!"e{i}:{showDVals a}"
+  | .base a => s!"b:{showDVals a}"
+  | .exit i r => s!"x{i}:{showDVals r}"
+
+def showConsumed : Consumed → String
+  | .success => "success" | .errPath => "errPath" | .returned => "returned" | .panic => "panic"
+
+def stepMwv (site aS rS errCode s1 s2 : String) : Option String := do
+  let (aKind, aCode) ← match aS.splitOn ":" with | [k, c] => some (k, c) | _ => none
+  let (rKind, rCode) ← match rS.splitOn ":" with | [k, c] => some (k, c) | _ => none
+  let argV ← valTable aKind aCode
+  let errV ← errTable errCode
+  let rets : List SVal ←
+    if rKind == "void" then (if rCode == "-" then some [SVal.iface errV] else none)
+    else (valTable rKind rCode).map fun v => [asDeclared v, SVal.iface errV]
+  let l1 := parseSpecs s1
+  let l2 := parseSpecs s2
+  let w1 ← l1.mapM (vSpecW aKind rKind)
+  let w2 ← l2.mapM (vSpecW aKind rKind)
+  let ctor := wrapsFrom 0 w1
+  let more := wrapsFrom l1.length w2
+  let f := baseFnDyn (fun _ => rets)
+  let m ← match site with
+    | "method" => some ((newMethod f ctor).addAll more)
+    | "processor" => some ((newMethod f (processorWiring ctor)).addAll more)
+    | "client" => some (newMethod f (clientWiring ctor more))
+    | "publisher" => if rKind == "void" then some (newMethod f (publisherWiring ctor more)) else none
+    | "subscriber" => if rKind == "void" then some (genSubscribe f ctor more) else none
+    | _ => none
+  let out := m.invoke [argV]
+  let ty := match valTable rKind "z" <|> valTable rKind "n" with
+    | some (.val t _ _ _) => t
+    | _ => ""
+  let consumed :=
+    if rKind == "void" then consumeVoid isErrTy out.1
+    else if site == "client" then consumeClient ty isErrTy out.1
+    else consumeProcessor ty isErrTy out.1
+  pure s!"ok {";".intercalate (out.2.map showVEv)} R={showDVals out.1} consume={showConsumed consumed}"
+
 def stepMiddleware (op : String) (args : List String) : Option String :=
   match op, args with
   | "mwi", [mset, name, specs, added, reps, base, arg] => do
@@ -119,6 +226,8 @@ def stepMiddleware (op : String) (args : List String) : Option String :=
     -- trace of its own argument (written "@")
     let m := newMethod (baseFn base "") (specMws 0 (parseSpecs specs))
     pure s!"ok calls={g * k * r} uniform {showRun (m.invoke "@")}"
+  | "mwv", [site, aS, rS, errCode, s1, s2] =>
+    some ((stepMwv site aS rS errCode s1 s2).getD "bad-op")
   | "wiring", [what] =>
     -- the model's wiring functions on symbolic lists
     let render (l : List String) := "-then-".intercalate l
